@@ -54,6 +54,43 @@ impl Write for Io {
     }
 }
 
+/// Serves the greeting; accepts `caps[i]` bytes on the i-th write (everything once the list is used
+/// up; 0 = a transport that accepts nothing) and records the pieces.
+struct CapIo {
+    greeting: &'static [u8],
+    pos: usize,
+    caps: std::collections::VecDeque<usize>,
+    pieces: Rc<RefCell<Vec<Vec<u8>>>>,
+}
+
+impl Read for CapIo {
+    fn read(&mut self, buf: &mut [u8]) -> io::Result<usize> {
+        let rem = &self.greeting[self.pos..];
+        let n = rem.len().min(buf.len());
+        buf[..n].copy_from_slice(&rem[..n]);
+        self.pos += n;
+        Ok(n)
+    }
+}
+
+impl Write for CapIo {
+    fn write(&mut self, buf: &[u8]) -> io::Result<usize> {
+        // `usize::MAX` in the script = this write fails (a write timeout); the transport works again afterwards
+        if self.caps.front() == Some(&usize::MAX) {
+            self.caps.pop_front();
+            return Err(io::Error::new(io::ErrorKind::TimedOut, "scripted write failure"));
+        }
+        let n = self.caps.pop_front().unwrap_or(buf.len()).min(buf.len());
+        if n > 0 {
+            self.pieces.borrow_mut().push(buf[..n].to_vec());
+        }
+        Ok(n)
+    }
+    fn flush(&mut self) -> io::Result<()> {
+        Ok(())
+    }
+}
+
 fn connection() -> (Connection<Io>, Rc<RefCell<Vec<u8>>>) {
     let out = Rc::new(RefCell::new(Vec::new()));
     let io = Io { greeting: b"OK MPD 0.23.5\n", pos: 0, out: out.clone() };
@@ -215,6 +252,35 @@ fn parse_commands(toks: &[&str]) -> Option<Vec<(String, Vec<Arg>)>> {
 
 pub fn exec(op: &[&str]) -> String {
     match op[0] {
+        // `send` / `send_list` over a transport that takes fewer bytes than offered: the pieces written
+        "cmd.wall" => {
+            if op.len() < 3 {
+                return "badinput".into();
+            }
+            let (as_list, caps_s) = match op[1].strip_prefix('L') {
+                Some(r) => (true, r),
+                None => (false, op[1]),
+            };
+            let caps: std::collections::VecDeque<usize> =
+                if caps_s == "-" { Default::default() } else { caps_s.split(',').map(|c| if c == "e" { usize::MAX } else { c.parse().unwrap() }).collect() };
+            let Ok(name) = String::from_utf8(unhex(op[2])) else { return "badinput".into() };
+            let Ok(mut cmd) = Command::build(&name) else { return "rejected".into() };
+            for a in &op[3..] {
+                let Ok(a) = String::from_utf8(unhex(a)) else { return "badinput".into() };
+                if cmd.add_argument(a).is_err() {
+                    return "rejected".into();
+                }
+            }
+            let pieces = Rc::new(RefCell::new(Vec::new()));
+            let io = CapIo { greeting: b"OK MPD 0.23.5\n", pos: 0, caps, pieces: pieces.clone() };
+            let mut conn = Connection::connect(io).expect("connect");
+            let r = if as_list { conn.send_list(CommandList::new(cmd.clone()).command(cmd)) } else { conn.send(cmd) };
+            match r {
+                Ok(()) => format!("ok:{}", pieces.borrow().iter().map(|p| hex(p)).collect::<Vec<_>>().join("/")),
+                Err(mpd_protocol::MpdProtocolError::Io(e)) if e.kind() == io::ErrorKind::WriteZero => "wzero".into(),
+                Err(_) => "err".into(),
+            }
+        }
         "cmd.build" => {
             if op.len() < 2 {
                 return "badinput".into();
@@ -406,6 +472,12 @@ fn atom_fixed(class: usize) -> &'static str {
 
 /// a string argument built from 0–4 atoms, biased to the interesting shapes
 fn gen_arg(r: &mut Rng) -> String {
+    // one argument with MANY characters that need a backslash (more than any fixed-size table holds)
+    if r.chance(1, 40) {
+        let n = *r.pick(&[31usize, 32, 33, 34, 40, 64, 65, 100, 300]);
+        let blank = r.chance(1, 2);
+        return (0..n).map(|i| if blank && i % 7 == 3 { ' ' } else { ['\\', '"', '\''][i % 3] }).collect();
+    }
     match r.below(12) {
         0 => {
             let c = r.below(N_CLASSES);
@@ -833,6 +905,23 @@ pub fn gen(cfg: &Cfg) -> Vec<String> {
         _ => {
             gen_c06(cfg, &mut r, &mut ops);
             gen_c07(cfg, &mut r, &mut ops);
+        }
+    }
+    // short writes (C07: the line, C13: the list block, must ARRIVE as rendered whatever the transport takes per write)
+    if matches!(cfg.prop.as_str(), "C07" | "C13" | "C06") {
+        let n = if cfg.thorough { 3000 } else { 300 };
+        for i in 0..n {
+            let k = r.below(6);
+            let caps: Vec<String> = (0..k).map(|_| r.pick(&[1usize, 1, 2, 3, 5, 7, 16, 100, 0]).to_string()).collect();
+            let caps = if caps.is_empty() { "-".to_string() } else { caps.join(",") };
+            // one time in twelve the FIRST write fails: the request is not sent — and nothing of it may
+            // turn up in what a later request writes (the ops that follow would show it)
+            let caps = if i % 12 == 5 { "e".to_string() } else { caps };
+            let name = *r.pick(&["add", "find", "x", "playlistadd"]);
+            let nargs = r.below(3);
+            let args: Vec<String> = (0..nargs).map(|_| hex(gen_arg(&mut r).as_bytes())).collect();
+            let l = if i % 2 == 0 && cfg.prop != "C06" { "L" } else { "" };
+            ops.push(format!("cmd.wall {l}{caps} {} {}", hex(name.as_bytes()), args.join(" ")).trim_end().to_string());
         }
     }
     // the enumerations overlap: keep the first occurrence of every operation line
